@@ -31,6 +31,9 @@ func gen(t *rapid.T) Case {
 		i := 0
 		var l []vkit.P2
 		n := rapid.IntRange(2, 12*nl+4).Draw(t, "n")
+		if rapid.IntRange(0, 29).Draw(t, "long") == 0 {
+			n = rapid.IntRange(260, 700).Draw(t, "nlong") // long lines (block-wise or size-dependent code paths)
+		}
 		style := rapid.SampledFrom([]string{"walk", "hook", "spiral", "zigzag"}).Draw(t, "style")
 		l = vkit.GrowLine(t, n, style)
 		// place: scale and translate the grown line
@@ -148,6 +151,11 @@ func run(c Case) (v vkit.Verdict) {
 	margin := 1e-7 * scale
 	v.Class("place_" + c.Place)
 	v.Class("kind_" + c.P.T)
+	for _, l := range c.Lines {
+		if len(l) > 256 {
+			v.Class("member_longer_than_256")
+		}
+	}
 	if !lineSimple(c.Lines, margin) {
 		v.Class("line_not_simple_skipped")
 		return v
@@ -232,7 +240,7 @@ func run(c Case) (v vkit.Verdict) {
 		return v.Fail("%T.Clip returned %T, want MultiLineString", L, res)
 	}
 	got := rm.Length()
-	if math.Abs(got-want) > 1e-9*(want+scale) {
+	if vkit.Off(got-want, 1e-9*(want+scale)) {
 		return v.Fail("%T.Clip(%s): clipped length %.12g, length of the intersection of the line with the polygon %.12g (%d boundary crossings)", L, c.P.T, got, want, crossings)
 	}
 	if (len(rm) == 0) != (want == 0) {
@@ -256,10 +264,10 @@ func run(c Case) (v vkit.Verdict) {
 					dl = math.Min(dl, vkit.DistPtSeg(p, l[i], l[i+1]))
 				}
 			}
-			if dl > tolv {
+			if !(dl <= tolv) { // NaN-safe
 				return v.Fail("result vertex %v is %g away from the input line", q, dl)
 			}
-			if vkit.PIP(p, pp) == vkit.Outside && vkit.MinDistToEdges(p, ep) > tolv {
+			if vkit.PIP(p, pp) == vkit.Outside && !(vkit.MinDistToEdges(p, ep) <= tolv) {
 				return v.Fail("result vertex %v is outside the polygon (distance %g from its boundary)", q, vkit.MinDistToEdges(p, ep))
 			}
 		}
@@ -299,8 +307,8 @@ func nearVerticalEdge(c Case) bool {
 func TestProp(t *testing.T) {
 	vkit.Main(t, vkit.Spec[Case]{
 		ID: "C14",
-		Rule: "rapid: simple open line strings (self-avoiding walks, hooks, spirals, zig-zags, x-monotone lines; 2-25 vertices) and multi-line strings of 1-3 members, " +
-			"scaled/placed relative to a valid polygonal P (star polygon with 0-3 holes, multi-polygon of 1-3 members, box): across, inside, through a hole, outside near, " +
+		Rule: "rapid: simple open line strings (self-avoiding walks, hooks, spirals, zig-zags, x-monotone lines; 2-40 vertices, 1 in 30 with 260-700) and multi-line strings of 1-3 members, " +
+			"scaled/placed relative to a valid polygonal P (star polygon or (1 in 3) non-star comb/snake band, 0-3 holes, multi-polygon of 1-3 members, box): across, inside, through a hole, outside near, " +
 			"outside far. Cases where the multi-line is not simple (own O(n^2) test, margin 1e-7*scale) or a line vertex / polygon vertex is within that margin of the other " +
 			"geometry are skipped and counted. Oracle: every line segment is cut at its intersections with every polygon edge and the pieces whose midpoint is inside P " +
 			"(own even-odd test) are summed -> expected length; Clip's total Length must match (1e-9 relative to length+scale), every result vertex must be within 1e-9*scale of " +
